@@ -197,6 +197,12 @@ func (reader *H264Reader) NextNAL() (*NAL, error) {
 	reader.nalBuffer = nil
 	nal.parseHeader()
 
+	// The last unit of the stream is not terminated by a start code, so it never
+	// passes through the SEI test inside the loop.
+	if !reader.includeSEI && nal.UnitType == NalUnitTypeSEI {
+		return nil, io.EOF
+	}
+
 	return nal, nil
 }
 
